@@ -95,7 +95,7 @@ static struct driver* pool_dp[POOLN][POOLCAP];
 static int pool_er_n, pool_dp_n;
 static struct manager the_manager; /* the DeviceManagerV0 object itself, typed */
 static int manager_given;
-#ifdef __CPROVER__
+#ifndef VERIF_REPLAY
 #define SAME_OBJECT(p, q) __CPROVER_same_object((p), (q))
 #else
 #define SAME_OBJECT(p, q) ((char*)(p) >= (char*)(q) && (char*)(p) < (char*)(q) + sizeof(q))
@@ -109,6 +109,22 @@ _Znwm(uint64_t n)
     char* p = malloc(n);
     VASSUME(p != 0);
     return p;
+}
+#ifndef VERIF_REPLAY /* (the native replay build uses libc memset/memmove) */
+/* zero-initialisation of the manager's two vectors (a 48-byte memset in the unit): typed, so that
+ * the vectors' pointers stay pointers (CBMC's memset writes a byte array over the struct) */
+void*
+memset(void* s, int c, size_t n)
+{
+    if (s == (void*)&the_manager && n == 48 && c == 0) {
+        the_manager.identifiers.beg = the_manager.identifiers.end = the_manager.identifiers.cap = 0;
+        the_manager.drivers.beg = the_manager.drivers.end = the_manager.drivers.cap = 0;
+        return s;
+    }
+    VASSERT(n <= 300, "harness bound: memset larger than an identifier");
+    for (size_t i = 0; i < 300; ++i)
+        if (i < n) ((unsigned char*)s)[i] = (unsigned char)c;
+    return s;
 }
 /* relocation of vector elements (memmove in the unit): element-wise and TYPED inside the pools */
 void*
@@ -132,6 +148,7 @@ memmove(void* dst, const void* src, size_t n)
         if (i < n) ((char*)dst)[i] = ((const char*)src)[i];
     return dst;
 }
+#endif
 void
 _ZdlPv(char* p)
 {
